@@ -238,6 +238,8 @@ def thresholds(d, rng, ctx):
             nonint += [k + 0.5, F(2 * k + 1, 2), k + F(1, 3), k - F(1, 7)]
         nonint += [2.5, F(7, 2), -2.5, F(-1, 2), 0.999999, lo - 0.25, top + 0.75]
         nonint = rng.sample(nonint, min(len(nonint), ctx.n(9, 20)))
+        # thresholds a hair away from an integer of the support, as FLOATS: `t - 1` or `t + 1` in float arithmetic absorbs them
+        nonint += rng.sample([1e-20, 5e-17, -1e-20, 2.0 ** -70, lo + 1e-20 if lo == 0 else lo - 1e-13, lo + 1 - 1e-16, 4.9e-324], 3)
         loops = d.kind in ("Binomial", "Poisson", "Geometric")   # the exact model (and Fraction powers) need moderate exponents
         large = [300, 299.5, -1000] if loops else [10 ** 12, 1e15, -10 ** 9, F(10 ** 12 + 1, 2)]
         return ints, nonint, large
